@@ -5,7 +5,7 @@ import UF.Model.Rule
   Every Go slice / index expression is a CHECKED operation here (`sliceC`, `idxC`): a run-time panic
   of the Go code is the value `.error .panic`, so "never crashes" is a theorem (Props/C12.lean).
 -/
-namespace UF
+namespace UF.E
 open Bytes
 
 /-- How a modelled function can fail: a run-time panic (slice/index out of range) or an ordinary
@@ -120,4 +120,4 @@ def findShortcut (pattern : Bytes) : PE Bytes := findShortcutLoop (pattern.lengt
 def isRegexPattern (p : Bytes) : Bool :=
   decide (p.length > 1) && p.head? == some (ch '/') && p.getLast? == some (ch '/')
 
-end UF
+end UF.E
